@@ -16,7 +16,9 @@
 //!
 //! Run-length forms (scripts of 200 000 frames stay small in the case line): an item of `frames`, `delivery`
 //! and `ops` may be `<count>*<group>`, a group being items joined by `+`; a frame's payload is hex or
-//! `g<len>s<seed>` (the bytes `(31 i + 7 (i / 251) + seed) mod 256`). In the output a run of identical
+//! `g<len>s<seed>` (the bytes `(31 i + 7 (i / 251) + seed) mod 256`), `t<len>s<seed>` (printable ASCII,
+//! `32 + (7 i + seed) mod 95`) or `u<len>s<seed>` (the 10 bytes of "a\u{e9}\u{20ac}\u{1f600}" repeated, starting at
+//! offset `seed mod 10`: UTF-8 exactly when both ends fall on character boundaries). In the output a run of identical
 //! consecutive writes of an op is `<count>*<hex>`, a run of identical consecutive entries `<count>*<entry>`, and
 //! a message payload above 100 000 bytes is `#<len>:<FNV-1a 64>`. Cases written with these forms (`scale_cases`)
 //! run in a WORKER PROCESS, the session on a thread with Rust's default 2 MiB stack (what a handler thread
@@ -283,10 +285,25 @@ fn gen_payload(len: usize, seed: usize) -> Vec<u8> {
     (0..len).map(|i| ((31 * i + 7 * (i / 251) + seed) % 256) as u8).collect()
 }
 
+/// `t<len>s<seed>`: printable ASCII, `32 + (7 i + seed) mod 95`.
+fn gen_ascii(len: usize, seed: usize) -> Vec<u8> {
+    (0..len).map(|i| (32 + (7 * i + seed) % 95) as u8).collect()
+}
+
+/// The bytes of "a\u{e9}\u{20ac}\u{1f600}" (characters of 1, 2, 3 and 4 bytes).
+const UTF8_UNIT: [u8; 10] = [0x61, 0xc3, 0xa9, 0xe2, 0x82, 0xac, 0xf0, 0x9f, 0x98, 0x80];
+
+/// `u<len>s<seed>`: `UTF8_UNIT` repeated, starting at offset `seed mod 10`.
+fn gen_utf8(len: usize, seed: usize) -> Vec<u8> {
+    (0..len).map(|i| UTF8_UNIT[(i + seed) % 10]).collect()
+}
+
 fn parse_payload(s: &str) -> Option<Vec<u8>> {
-    if let Some(rest) = s.strip_prefix('g') {
-        let (l, sd) = rest.split_once('s')?;
-        return Some(gen_payload(l.parse().ok()?, sd.parse().ok()?));
+    for (c, f) in [('g', gen_payload as fn(usize, usize) -> Vec<u8>), ('t', gen_ascii), ('u', gen_utf8)] {
+        if let Some(rest) = s.strip_prefix(c) {
+            let (l, sd) = rest.split_once('s')?;
+            return Some(f(l.parse().ok()?, sd.parse().ok()?));
+        }
     }
     Some(unhex(s))
 }
@@ -383,6 +400,14 @@ enum Op {
     RecvNb,
     Ping,
     Send(bool, Vec<u8>),
+    /// receive (`true`: without blocking) and send the received `Message` object back
+    Echo(bool),
+    /// receive (`true`: without blocking) and keep the `Message` object
+    Keep(bool),
+    /// send the oldest kept message (it leaves the queue)
+    Relay,
+    /// send a clone of the oldest kept message (it stays in the queue)
+    Again,
 }
 
 fn op_text(o: &Op) -> String {
@@ -391,6 +416,12 @@ fn op_text(o: &Op) -> String {
         Op::RecvNb => "n".into(),
         Op::Ping => "p".into(),
         Op::Send(t, p) => format!("s{}{}", if *t { 1 } else { 0 }, hex(p)),
+        Op::Echo(false) => "e".into(),
+        Op::Echo(true) => "f".into(),
+        Op::Keep(false) => "k".into(),
+        Op::Keep(true) => "j".into(),
+        Op::Relay => "q".into(),
+        Op::Again => "c".into(),
     }
 }
 
@@ -406,6 +437,12 @@ fn parse_ops(s: &str) -> Option<Vec<Op>> {
         "r" => Some(Op::Recv),
         "n" => Some(Op::RecvNb),
         "p" => Some(Op::Ping),
+        "e" => Some(Op::Echo(false)),
+        "f" => Some(Op::Echo(true)),
+        "k" => Some(Op::Keep(false)),
+        "j" => Some(Op::Keep(true)),
+        "q" => Some(Op::Relay),
+        "c" => Some(Op::Again),
         _ if x.starts_with("s0") => Some(Op::Send(false, unhex(&x[2..]))),
         _ if x.starts_with("s1") => Some(Op::Send(true, unhex(&x[2..]))),
         _ => None,
@@ -425,17 +462,39 @@ struct Session {
     shared: Arc<Mutex<Shared>>,
     seen_writes: usize,
     out: Vec<String>,
+    /// received messages kept by `k` / `j`
+    held: VecDeque<Message>,
+}
+
+/// One receive call: the message, or the text of any other result.
+fn receive(ws: &mut WebsocketStream, nonblocking: bool) -> Result<Message, String> {
+    if nonblocking {
+        match ws.recv_nonblocking() {
+            Restion::Ok(m) => Ok(m),
+            Restion::Err(e) => Err(err_text(&e)),
+            Restion::None => Err("N".into()),
+        }
+    } else {
+        ws.recv().map_err(|e| err_text(&e))
+    }
+}
+
+fn sent_text(r: Result<(), WebsocketError>) -> String {
+    match r {
+        Ok(()) => "S".into(),
+        Err(e) => err_text(&e),
+    }
 }
 
 impl Session {
     fn new(evs: Vec<Ev>) -> Session {
         let (mock, shared) = Mock::new(evs);
-        Session { ws: Some(WebsocketStream::new(Stream::Mock(Box::new(mock)))), shared, seen_writes: 0, out: Vec::new() }
+        Session { ws: Some(WebsocketStream::new(Stream::Mock(Box::new(mock)))), shared, seen_writes: 0, out: Vec::new(), held: VecDeque::new() }
     }
 
     fn new_writes(&mut self) -> String {
         let sh = self.shared.lock().unwrap();
-        let w = rle(&sh.writes[self.seen_writes..].iter().map(|w| hex(w)).collect::<Vec<_>>()).join(".");
+        let w = rle(&sh.writes[self.seen_writes..].iter().map(|w| payload_text(w)).collect::<Vec<_>>()).join(".");
         self.seen_writes = sh.writes.len();
         // the stream must be back in blocking mode after every call
         if sh.switches.last() == Some(&true) {
@@ -447,27 +506,45 @@ impl Session {
     /// Runs one op; returns its result text.
     fn op(&mut self, o: &Op) -> String {
         let ws = self.ws.as_mut().unwrap();
+        let held = &mut self.held;
         let r = guarded(|| match o {
-            Op::Recv => match ws.recv() {
+            Op::Recv => match receive(ws, false) {
                 Ok(m) => msg_text(&m),
-                Err(e) => err_text(&e),
+                Err(t) => t,
             },
-            Op::RecvNb => match ws.recv_nonblocking() {
-                Restion::Ok(m) => msg_text(&m),
-                Restion::Err(e) => err_text(&e),
-                Restion::None => "N".into(),
+            Op::RecvNb => match receive(ws, true) {
+                Ok(m) => msg_text(&m),
+                Err(t) => t,
             },
-            Op::Ping => match ws.ping() {
-                Ok(()) => "S".into(),
-                Err(e) => err_text(&e),
-            },
+            Op::Ping => sent_text(ws.ping()),
             Op::Send(text, p) => {
                 let m = if *text { Message::new(p) } else { Message::new_binary(p) };
-                match ws.send(m) {
-                    Ok(()) => "S".into(),
-                    Err(e) => err_text(&e),
-                }
+                sent_text(ws.send(m))
             }
+            Op::Echo(nb) => match receive(ws, *nb) {
+                Ok(m) => {
+                    let t = msg_text(&m);
+                    // the object that was received goes back as it is
+                    format!("{}>{}", t, sent_text(ws.send(m)))
+                }
+                Err(t) => t,
+            },
+            Op::Keep(nb) => match receive(ws, *nb) {
+                Ok(m) => {
+                    let t = msg_text(&m);
+                    held.push_back(m);
+                    t
+                }
+                Err(t) => t,
+            },
+            Op::Relay => match held.pop_front() {
+                Some(m) => sent_text(ws.send(m)),
+                None => "-".into(),
+            },
+            Op::Again => match held.front() {
+                Some(m) => sent_text(ws.send(m.clone())),
+                None => "-".into(),
+            },
         });
         let r = r.unwrap_or_else(|_| "PANIC".into());
         let w = self.new_writes();
@@ -571,7 +648,7 @@ pub fn exec(f: &[String]) -> Option<String> {
         ("sess", 5) => {
             // cases written with the run-length / generated-payload forms are the large ones: they run in a worker
             // process (an abort of the process is then an observation), whoever asks
-            let large = f[1].contains('*') || f[1].contains('g') || f[3].contains('*') || f[4].contains('*');
+            let large = f[1].contains('*') || f[1].contains(|c| c == 'g' || c == 't' || c == 'u') || f[3].contains('*') || f[4].contains('*');
             if large && !in_worker() {
                 return crate::worker::run_cases("C11", &[f.to_vec()], SCALE_WATCHDOG).pop();
             }
@@ -709,7 +786,23 @@ fn gen_script(rng: &mut Rng, allow_big: bool) -> Vec<CF> {
                 let utf8_pieces: Option<Vec<Vec<u8>>> = if text && rng.chance(1, 3) {
                     let nchars = rng.range(parts as u64, 40) as usize;
                     let whole: String = (0..nchars).map(|_| *rng.pick(&['a', '\u{e9}', '\u{df}', '\u{4e2d}', '\u{2713}', '\u{1f600}', ' ', '\u{7ff}', '\u{800}', '\u{10000}'])).collect();
-                    let b = whole.into_bytes();
+                    let mut b = whole.into_bytes();
+                    // a third of these is NOT UTF-8 as a whole (the message is still a text message: the client said so):
+                    // cut in the last character, a byte that never occurs in UTF-8, a stray continuation byte, a Latin-1
+                    // letter, an encoded surrogate, an overlong form
+                    if rng.chance(1, 3) {
+                        let at = rng.below(b.len() as u64 + 1) as usize;
+                        match rng.below(6) {
+                            0 => {
+                                if *b.last().unwrap() >= 0x80 { b.pop(); } else { b.push(*rng.pick(&[0xc3u8, 0xe2, 0xf0])); }
+                            }
+                            1 => { let i = at.min(b.len() - 1); b[i] = *rng.pick(&[0xffu8, 0xfe, 0xc0, 0xf8]); }
+                            2 => b.insert(at, 0x80),
+                            3 => b.insert(at, 0xe9),
+                            4 => { b.splice(at..at, [0xedu8, 0xa0, 0x80]); }
+                            _ => { b.splice(at..at, [0xc0u8, 0xaf]); }
+                        }
+                    }
                     let mut cuts: Vec<usize> = (0..parts - 1).map(|_| rng.below(b.len() as u64 + 1) as usize).collect();
                     cuts.sort();
                     let mut pieces = Vec::new();
@@ -858,7 +951,18 @@ enum Mode {
 }
 
 /// Drives the real stream, choosing the ops as it goes; returns the ops made and the output.
-fn drive(rng: &mut Rng, frames: &[CF], keep: usize, d: &[Item], mode: Mode, early_drop: bool, talk: bool) -> (Vec<Op>, String) {
+/// What the handler does with the messages it receives.
+#[derive(Clone, Copy, PartialEq)]
+enum Style {
+    /// looks at them
+    Plain,
+    /// sends most of them straight back (the received object)
+    Echo,
+    /// keeps them and sends them on later, some of them more than once
+    Relay,
+}
+
+fn drive(rng: &mut Rng, frames: &[CF], keep: usize, d: &[Item], mode: Mode, early_drop: bool, talk: bool, style: Style) -> (Vec<Op>, String) {
     let mut s = Session::new(events(&wire(frames, keep), d));
     let mut ops = Vec::new();
     let mut after_err = 0;
@@ -877,20 +981,26 @@ fn drive(rng: &mut Rng, frames: &[CF], keep: usize, d: &[Item], mode: Mode, earl
                 Op::Send(t, rand_payload(rng, n, t))
             }
         } else {
-            match mode {
-                Mode::Blocking => Op::Recv,
-                Mode::Nonblocking => Op::RecvNb,
-                Mode::Mixed => {
-                    if rng.chance(1, 2) {
-                        Op::Recv
-                    } else {
-                        Op::RecvNb
-                    }
-                }
+            let nb = match mode {
+                Mode::Blocking => false,
+                Mode::Nonblocking => true,
+                Mode::Mixed => rng.chance(1, 2),
+            };
+            let plain = if nb { Op::RecvNb } else { Op::Recv };
+            match style {
+                Style::Plain => plain,
+                Style::Echo => if rng.chance(4, 5) { Op::Echo(nb) } else { plain },
+                Style::Relay => match rng.below(8) {
+                    0..=3 => Op::Keep(nb),
+                    4 => Op::Relay,
+                    5 => Op::Again,
+                    6 => Op::Echo(nb),
+                    _ => plain,
+                },
             }
         };
         let r = s.op(&o);
-        let is_recv = matches!(o, Op::Recv | Op::RecvNb);
+        let is_recv = matches!(o, Op::Recv | Op::RecvNb | Op::Echo(_) | Op::Keep(_));
         ops.push(o);
         if !is_recv {
             continue;
@@ -906,7 +1016,71 @@ fn drive(rng: &mut Rng, frames: &[CF], keep: usize, d: &[Item], mode: Mode, earl
             break;
         }
     }
+    // what is still kept goes out before the handler returns (also after an error or the client's Close)
+    if style == Style::Relay && rng.chance(3, 4) {
+        for _ in 0..s.held.len().min(8) {
+            let o = if rng.chance(1, 5) { Op::Again } else { Op::Relay };
+            s.op(&o);
+            ops.push(o);
+        }
+    }
     (ops, s.finish())
+}
+
+/// Output entries, run-length forms expanded (small sessions only).
+fn expand_entries(res: &str) -> Vec<String> {
+    let mut v = Vec::new();
+    for e in res.split(';') {
+        let (k, body) = count_prefix(e);
+        for _ in 0..k.min(64) {
+            v.push(body.to_string());
+        }
+    }
+    v
+}
+
+/// Which kinds of received messages were sent on (echo: read off the entry; relay: the kept messages in order).
+fn count_sent_back(out: &mut Out, ops: &[Op], res: &str) {
+    if !ops.iter().any(|o| matches!(o, Op::Echo(_) | Op::Relay | Op::Again)) || ops.len() > 64 {
+        return;
+    }
+    let kind = |m: &str| -> &'static str {
+        let text = m.starts_with('T');
+        let body = &m[1..];
+        if body.starts_with('#') {
+            return if text { "sent-back:text-over-100000-bytes" } else { "sent-back:binary-over-100000-bytes" };
+        }
+        let p = unhex(body);
+        match (text, p.is_empty(), std::str::from_utf8(&p).is_ok()) {
+            (true, true, _) => "sent-back:text-empty",
+            (true, _, true) => if p.iter().any(|b| *b >= 0x80) { "sent-back:text-multibyte-utf8" } else { "sent-back:text-ascii" },
+            (true, _, false) => "sent-back:text-not-utf8",
+            (false, true, _) => "sent-back:binary-empty",
+            (false, _, true) => "sent-back:binary-utf8-payload",
+            (false, _, false) => "sent-back:binary",
+        }
+    };
+    let entries = expand_entries(res);
+    let mut held: VecDeque<String> = VecDeque::new();
+    for (o, e) in ops.iter().zip(entries.iter()) {
+        let r = e.split('/').next().unwrap_or("");
+        let is_msg = r.starts_with('T') || r.starts_with('B');
+        match o {
+            Op::Echo(_) if is_msg && r.ends_with(">S") => out.count(kind(&r[..r.len() - 2])),
+            Op::Keep(_) if is_msg => held.push_back(r.to_string()),
+            Op::Relay => {
+                if let Some(m) = held.pop_front() {
+                    out.count(kind(&m));
+                }
+            }
+            Op::Again => {
+                if let Some(m) = held.front() {
+                    out.count(kind(m));
+                }
+            }
+            _ => {}
+        }
+    }
 }
 
 fn classify(out: &mut Out, frames: &[CF], keep: usize, d: &[Item], ops: &[Op], res: &str) {
@@ -953,6 +1127,16 @@ fn classify(out: &mut Out, frames: &[CF], keep: usize, d: &[Item], ops: &[Op], r
     if frames.iter().any(|f| f.opcode == PING) {
         out.count("sess:has-ping");
     }
+    if ops.iter().any(|o| matches!(o, Op::Echo(_))) {
+        out.count("sess:uses-echo");
+    }
+    if ops.iter().any(|o| matches!(o, Op::Keep(_))) {
+        out.count("sess:uses-keep");
+    }
+    if ops.iter().any(|o| matches!(o, Op::Relay | Op::Again)) {
+        out.count("sess:uses-relay");
+    }
+    count_sent_back(out, ops, res);
     let frag = frames.iter().any(|f| !f.fin && f.opcode <= 2);
     if frag {
         out.count("sess:has-fragmented-message");
@@ -1004,6 +1188,101 @@ fn small_alphabet() -> Vec<CF> {
         f(true, CLOSE, true, b""),
         f(true, CLOSE, true, &[0x03, 0xe8]),
     ]
+}
+
+/// The frames of the small scope for operations on received messages: every kind of message a client can make the
+/// server hold (text that is UTF-8, text that is not, text whose fragments end inside a character, empty, binary).
+fn echo_alphabet() -> Vec<CF> {
+    let f = |fin: bool, opcode: u8, mask: bool, payload: &[u8]| CF {
+        fin,
+        rsv: [false; 3],
+        opcode,
+        mask,
+        key: if mask { [0x37, 0xfa, 0x21, 0x3d] } else { [0; 4] },
+        payload: payload.to_vec(),
+    };
+    vec![
+        f(true, TEXT, true, b"a"),
+        f(true, TEXT, true, &[0xe9]),       // a Latin-1 letter: not UTF-8
+        f(true, TEXT, false, &[0xc3, 0xa9]), // the same letter in UTF-8
+        f(true, TEXT, true, &[0xe2, 0x82]), // a three-byte character without its last byte
+        f(true, TEXT, true, b""),
+        f(false, TEXT, true, &[0xc3]),      // a first fragment that ends inside a character
+        f(false, TEXT, true, b""),
+        f(true, CONT, true, &[0xa9]),       // completes the character
+        f(true, CONT, true, &[0xff]),
+        f(false, CONT, false, &[0xe2]),
+        f(true, BIN, true, &[0xc3, 0xa9]),  // binary message whose payload happens to be UTF-8
+        f(true, BIN, true, &[0xff]),
+        f(true, BIN, false, b""),
+        f(false, BIN, true, b"a"),
+        f(true, PING, true, b"p"),
+        f(true, CLOSE, true, b""),
+    ]
+}
+
+/// Small scope, complete: every script of up to 3 frames over `echo_alphabet`, with handlers that send received
+/// messages back (echo), blocking and non-blocking, and (up to 2 frames; thorough: 3) handlers that keep the messages
+/// and send them on later, once and twice, delivered whole and byte-wise.
+fn gen_echo_scope(out: &mut Out, thorough: bool) {
+    let alpha = echo_alphabet();
+    let mut scripts: Vec<Vec<CF>> = vec![];
+    for a in &alpha {
+        scripts.push(vec![a.clone()]);
+        for b in &alpha {
+            scripts.push(vec![a.clone(), b.clone()]);
+            for c in &alpha {
+                scripts.push(vec![a.clone(), b.clone(), c.clone()]);
+            }
+        }
+    }
+    let rep = |o: &[Op], n: usize| -> Vec<Op> { (0..n).flat_map(|_| o.iter().cloned()).collect() };
+    for fs in &scripts {
+        let total: usize = fs.iter().map(frame_len).sum();
+        let n = fs.len() + 2;
+        let mut patterns: Vec<Vec<Op>> = vec![rep(&[Op::Echo(false)], n), rep(&[Op::Echo(true)], n)];
+        let full = fs.len() <= 2 || thorough;
+        if full {
+            // keep everything, then every kept message twice (a clone, then the object itself)
+            let mut p = rep(&[Op::Keep(false)], n);
+            p.extend(rep(&[Op::Again, Op::Relay], fs.len() + 1));
+            patterns.push(p);
+            patterns.push(rep(&[Op::Keep(true), Op::Again, Op::Relay], n));
+            // echo and plain receive alternating, both modes
+            patterns.push(rep(&[Op::Echo(true), Op::Recv, Op::Echo(false), Op::RecvNb], (n + 1) / 2));
+        }
+        for ops in &patterns {
+            let whole: Vec<Item> = vec![];
+            let r = run_session(fs, total, &whole, ops);
+            out.count("echo-scope:whole");
+            emit_session(out, fs, total, &whole, ops, &r);
+            if full {
+                let bytewise: Vec<Item> = (1..total).map(|_| Item::Seg(1)).collect();
+                let r = run_session(fs, total, &bytewise, ops);
+                out.count("echo-scope:byte-wise");
+                emit_session(out, fs, total, &bytewise, ops, &r);
+            }
+        }
+        if fs.len() <= 2 {
+            // the last byte never arrives; a pause before every frame
+            for ops in &patterns[..2] {
+                let r = run_session(fs, total - 1, &[], ops);
+                out.count("echo-scope:truncated");
+                emit_session(out, fs, total - 1, &[], ops, &r);
+            }
+            let mut at = vec![0usize];
+            let mut pos = 0;
+            for f in fs.iter() {
+                pos += frame_len(f);
+                at.push(pos);
+            }
+            let d = insert_notyet(&[], total, &at);
+            let ops = rep(&[Op::Echo(true)], n + at.len());
+            let r = run_session(fs, total, &d, &ops);
+            out.count("echo-scope:pauses");
+            emit_session(out, fs, total, &d, &ops, &r);
+        }
+    }
 }
 
 fn gen_handshakes(out: &mut Out, rng: &mut Rng, n: usize) {
@@ -1290,6 +1569,107 @@ pub fn scale_cases(thorough: bool, seed: u64) -> Vec<(String, Vec<String>)> {
         let key = newkey(&mut rng);
         add(format!("payload:len={}", l), format!("{}*{}", n, ftext(true, BIN, true, &key, &format!("g{}s3", l))), 0, "-".into(), format!("{}*r", n + 1));
     }
+
+    // ---- E. received messages sent on: echo (`e` blocking, `f` non-blocking), keep and relay, at the same counts and lengths
+    // the kinds of message a client can make the server hold
+    let kinds = |key: &str| -> Vec<String> {
+        vec![
+            ftext(true, TEXT, true, key, "6869"),        // text, ASCII
+            ftext(true, TEXT, true, key, "63e974e9"),    // text in Latin-1: not UTF-8
+            ftext(true, BIN, true, key, "c3a9"),         // binary whose payload is UTF-8
+            ftext(true, TEXT, false, key, ""),           // empty text
+            ftext(true, TEXT, true, key, "e282ac"),      // text, one three-byte character
+            ftext(true, TEXT, true, key, "61e282"),      // text that ends inside a character
+            ftext(true, BIN, false, key, "00ff"),        // binary
+        ]
+    };
+    let echo_counts = sweep(thorough, &[100, 1_000, 7_000], &[128, 255, 256, 257, 1_024, 4_096, 8_192, 14_000]);
+    for &n in &echo_counts {
+        let key = newkey(&mut rng);
+        let ks = kinds(&key);
+        let group = ks.join("+");
+        let per = ks.len();
+        let unit: usize = ks.iter().map(|k| script_wire_len(k)).sum();
+        let ping = ftext(true, PING, true, &key, "7069");
+        let close = ftext(true, CLOSE, true, &key, "03e8");
+        // a character cut at both fragment boundaries (the message is UTF-8); the same without its last byte (it is not)
+        let cut_ok = format!("{}+{}+{}", ftext(false, TEXT, true, &key, "e2"), ftext(false, CONT, true, &key, "82"), ftext(true, CONT, true, &key, "ac41"));
+        let cut_bad = format!("{}+{}", ftext(false, TEXT, true, &key, "41e2"), ftext(true, CONT, true, &key, "82"));
+        let reps = n / per;
+        for (mi, mode) in ["e", "f"].iter().enumerate() {
+            if !thorough && n > 1_024 && mi == 1 {
+                continue;
+            }
+            let pause = n <= 1_024 && (mi + n) % 2 == 0;
+            add(format!("echo:n={}|echo:all-kinds", n), format!("{}*{}", reps, group), 0, if pause { format!("{}*{}+n", reps, unit) } else { "-".into() }, format!("{}*{}", reps * per + 2, mode));
+            add(format!("echo:n={}|echo:all-kinds-then-close", n), format!("{}*{},{}", reps, group, close), 0, "-".into(), format!("{}*{}", reps * per + 2, mode));
+            add(format!("echo:n={}|echo:not-utf8-text-then-ping", n), format!("{}*{}+{}", n / 2, ks[1], ping), 0, "-".into(), format!("{}*{}", n / 2 + 1, mode));
+            add(format!("echo:n={}|echo:character-cut-between-fragments", n), format!("{}*{}+{}", n / 2, cut_ok, cut_bad), if mi == 0 { 0 } else { 1 }, format!("{}*4096", n / 100 + 1), format!("{}*{}", n + 1, mode));
+            // echo and plain receive taking turns on the same stream object
+            add(format!("echo:n={}|echo:alternating-with-recv", n), format!("{}*{}", reps, group), 0, "-".into(), format!("{}*{}+{}", (reps * per) / 2 + 1, mode, if mi == 0 { "n" } else { "r" }));
+        }
+        // store and forward: everything is kept, then sent on (a clone first, then the object)
+        if n <= 1_024 || thorough {
+            for (keepop, tail) in [("k", "q"), ("j", "c+q")] {
+                add(format!("echo:n={}|echo:keep-then-relay", n), format!("{}*{}", reps, group), 0, "-".into(), format!("{}*{},{}*{},q", reps * per + 1, keepop, reps * per, tail));
+            }
+            // a relay that is one message behind
+            add(format!("echo:n={}|echo:relay-one-behind", n), format!("{}*{}", reps, group), 0, "-".into(), format!("k,{}*k+q,q,q", reps * per));
+        }
+    }
+    // one message of many fragments, every character cut, sent back
+    for &n in &sweep(thorough, &[100, 1_000, 9_999], &[128, 255, 256, 257, 1_024, 4_096, 8_192, 20_000]) {
+        for (mi, mode) in ["e", "f"].iter().enumerate() {
+            let key = newkey(&mut rng);
+            let triple = format!("{}+{}+{}", ftext(false, CONT, true, &key, "82"), ftext(false, CONT, true, &key, "ac"), ftext(false, CONT, true, &key, "e2"));
+            for (ending, what) in [("82ac", "utf8"), ("82", "not-utf8"), ("", "not-utf8")] {
+                if mi == 1 && ending.is_empty() {
+                    continue;
+                }
+                let frames = format!("{},{}*{},{}", ftext(false, TEXT, true, &key, "e2"), n / 3, triple, ftext(true, CONT, true, &key, ending));
+                add(format!("echo:fragments={}|echo:fragmented-{}", n, what), frames, 0, if mi == 0 { "-".into() } else { format!("{}*7", n) }, format!("2*{}", mode));
+            }
+        }
+    }
+    // payload lengths: ASCII text, multi-byte text that is / is not UTF-8 as a whole, arbitrary bytes flagged as text, binary
+    let utf8_seed = |l: usize, valid: bool| -> usize {
+        let probe = l % 10 + 10;
+        (0..10).find(|s| std::str::from_utf8(&gen_utf8(probe, *s)).is_ok() == valid).unwrap_or(0)
+    };
+    let echo_lens = sweep(thorough, &[125, 126, 127, 65_535, 65_536, 65_537, 100_000, 100_001, 1 << 20],
+                          &[0, 1, 128, 255, 256, 257, 1_000, 1_024, 4_095, 4_096, 4_097, 8_192, 16_384, 32_768, 131_072, 262_144, 524_288, (1 << 20) + 1, 2 << 20, 4 << 20]);
+    for (li, &l) in echo_lens.iter().enumerate() {
+        let key = newkey(&mut rng);
+        let sd = rng.below(95) as usize;
+        let variants: Vec<(&str, u8, String)> = vec![
+            ("text-ascii", TEXT, format!("t{}s{}", l, sd)),
+            ("text-multibyte-utf8", TEXT, format!("u{}s{}", l, utf8_seed(l, true))),
+            ("text-multibyte-not-utf8", TEXT, format!("u{}s{}", l, utf8_seed(l, false))),
+            ("text-arbitrary-bytes", TEXT, format!("g{}s{}", l, sd)),
+            ("binary-ascii", BIN, format!("t{}s{}", l, sd)),
+        ];
+        for (vi, (what, op, pl)) in variants.iter().enumerate() {
+            if l == 0 && vi > 0 && vi < 4 {
+                continue;
+            }
+            let mode = if (vi + li) % 2 == 0 { "e" } else { "f" };
+            let mask = (vi + li) % 3 != 0;
+            let whole = ftext(true, *op, mask, &key, pl);
+            let delivery = if l >= 4_096 && (vi + li) % 4 == 1 { format!("{}*4096", l / 4096 + 1) } else { "-".to_string() };
+            add(format!("echo:len={}|echo:{}", l, what), whole, 0, delivery, format!("2*{}", mode));
+            // the same payload in two fragments (the cut falls where it falls), a Ping between them, the other mode
+            if (thorough || l <= 65_537) && l >= 2 && vi >= 1 && vi <= 3 {
+                let other = if mode == "e" { "f" } else { "e" };
+                let (a, b) = (l / 2, l - l / 2);
+                let (head, tail) = match pl.as_bytes()[0] {
+                    b'u' => { let s0: usize = pl.split('s').nth(1).unwrap().parse().unwrap(); (format!("u{}s{}", a, s0), format!("u{}s{}", b, (s0 + a) % 10)) }
+                    _ => (format!("g{}s{}", a, sd), format!("g{}s{}", b, sd + 1)),
+                };
+                let frames = format!("{},{},{}", ftext(false, *op, mask, &key, &head), ftext(true, PING, true, &key, "70"), ftext(true, CONT, true, &key, &tail));
+                add(format!("echo:len={}|echo:{}-two-fragments", l, what), frames, 0, "-".into(), format!("2*{}", other));
+            }
+        }
+    }
     v
 }
 
@@ -1383,6 +1763,9 @@ pub fn gen(out: &mut Out, thorough: bool, seed: u64) {
         emit_session(out, fs, total, &d, &ops, &r);
     }
 
+    // ---- received messages sent on (echo, keep and relay): small scope
+    gen_echo_scope(out, thorough);
+
     // ---- random client scripts (HV_C11_RANDOM=0 leaves them out: used once to look at the small scope alone)
     let n = if std::env::var("HV_C11_RANDOM").map(|v| v == "0").unwrap_or(false) { 0 } else if thorough { 60000 } else { 7000 };
     for i in 0..n {
@@ -1442,7 +1825,12 @@ pub fn gen(out: &mut Out, thorough: bool, seed: u64) {
         }
         let early_drop = rng.chance(1, 8);
         let talk = rng.chance(1, 5);
-        let (ops, r) = drive(&mut rng, &fs, keep, &d, mode, early_drop, talk);
+        let style = match rng.below(20) {
+            0..=10 => Style::Plain,
+            11..=16 => Style::Echo,
+            _ => Style::Relay,
+        };
+        let (ops, r) = drive(&mut rng, &fs, keep, &d, mode, early_drop, talk, style);
         if early_drop {
             out.count("sess:end=server-drop");
         }
